@@ -190,9 +190,26 @@ pub fn decode(bytes: &[u8]) -> Case {
             prefix.push(u.pick(&with_comp).clone().into_bytes());
             String::new()
         }
-        6 => match u.below(3) {
+        6 => match u.below(6) {
             0 => "a\nb".into(),
             1 => "x\ty".into(),
+            // `name=value` words for which nothing can be computed: the whole word is echoed
+            2 => format!("-z={}", hostile(&mut u)),
+            3 => format!("--zz-unknown={}", hostile(&mut u)),
+            4 => {
+                let flags: Vec<String> = level
+                    .body
+                    .named_leaves(true)
+                    .iter()
+                    .filter(|l| !l.is_arg())
+                    .map(|l| l.first_name())
+                    .collect();
+                if flags.is_empty() {
+                    format!("-y={}", hostile(&mut u))
+                } else {
+                    format!("{}={}", u.pick(&flags), hostile(&mut u))
+                }
+            }
             _ => hostile(&mut u),
         },
         _ => hostile(&mut u),
